@@ -898,17 +898,23 @@ def single_check(si, spec, w0=None, wire=None):
             fails.append(fail('shared-state', tag, [spec.name],
                               f'{spec.api}: editing the returned value changed the caller\'s objects: ' +
                               '; '.join(f'{k}: {d1[k][:120]} -> {d2[k][:120]}' for k in sh), sh))
-    # determinism / independence from the caller's generator
+    # the same call again (the caller has edited the first result by now), then independence from the caller's generator
     if not spec.random:
-        _random.seed(987654321)
         r2, _ = run_call(spec, partial_copy(w0, keys))
-        _random.seed(123)
-        r3, _ = run_call(spec, partial_copy(w0, keys))
-        _random.setstate(rs1)
-        if r2 != r or r3 != r:
-            fails.append(fail('rng-dependent', tag, [spec.name],
-                              f'{spec.api}: result differs between two calls on equal fresh arguments (global generator reseeded '
-                              f'in between): {r[:150]} / {r2[:150]} / {r3[:150]}'))
+        if r2 != r:
+            fails.append(fail('history-dependent', tag, [spec.name, spec.name],
+                              f'{spec.api}: called, result edited by the caller, called again on equal fresh arguments: '
+                              f'{r2[:200]}  but the first call returned: {r[:200]}'))
+        else:
+            _random.seed(987654321)
+            r3, _ = run_call(spec, partial_copy(w0, keys))
+            _random.seed(123)
+            r4, _ = run_call(spec, partial_copy(w0, keys))
+            _random.setstate(rs1)
+            if r3 != r or r4 != r:
+                fails.append(fail('rng-dependent', tag, [spec.name],
+                                  f'{spec.api}: result depends on the state of the global random generator: '
+                                  f'{r[:150]} / {r3[:150]} / {r4[:150]}'))
     return fails, changed, shared
 
 
